@@ -1450,7 +1450,9 @@ impl Tuple {
 
 impl From<&Tuple> for Box<[u8]> {
     fn from(value: &Tuple) -> Self {
-        Box::from(value.full_data())
+        // Only the bytes in use: the spare capacity behind them is not part of the tuple, and a
+        // reader that walks the version chain of the image would take it for another delta.
+        Box::from(value.effective_data())
     }
 }
 pub struct DisplayWith<'a, T> {
